@@ -114,8 +114,18 @@ def analyse(base, chk, fname, variant="distinct"):
                 elif isinstance(v, X.SliceV):
                     locs.append((v.obj, v.path + (v.off,)))
             distinct = len(set(locs)) == len(locs)
-            # not retained: no pre-existing object (globals, arguments) holds a reference into the result objects
+            # not retained: no pre-existing object (globals, arguments) holds a reference into the result objects, and the
+            # result does not live in storage that was handed to a sync.Pool (recycled by a later call)
             retained = []
+            pooled = set()
+            for ev in p.log:
+                if ev[0] == "pool_put" and len(ev) > 3 and ev[3] is not None:
+                    acc_ = {ev[3]}
+                    if ev[3] in p.heap:
+                        refs_in(p.heap[ev[3]], acc_)
+                    pooled |= acc_
+            if pooled & res:
+                retained.append("sync.Pool")
             for oid, cells in p.heap.items():
                 if oid in r.pre_objs:
                     acc = set()
